@@ -98,6 +98,10 @@ class Snapshot:
         lock = open(os.path.join(CACHE, 'replay-target.lock'), 'w')
         fcntl.flock(lock, fcntl.LOCK_EX)
         try:
+            # cargo judges freshness of a path package by mtimes: a tree whose files are older than the cached output (another tree built in
+            # between, a restore that keeps old mtimes) would silently reuse a stale binary - force the crate itself to be recompiled
+            now = time.time()
+            os.utime(os.path.join(self.src, 'src', 'main.rs'), (now, now))
             r = subprocess.run(cmd, cwd=self.src, capture_output=True, text=True,
                                env=env_offline({'RUSTFLAGS': f'--cfg {GUARD_CFG} -A warnings'}))
             exe = None
@@ -134,6 +138,8 @@ class Snapshot:
                 src = os.path.join(self.dir, 'w_server')
                 if not os.path.exists(src):
                     subprocess.run(['rsync', '-a', '--exclude', 'target', '--exclude', '.git', REPO.rstrip('/') + '/', src + '/'], check=True)
+            now = time.time()
+            os.utime(os.path.join(src, 'src', 'main.rs'), (now, now))       # see build_replay_tests: never reuse a binary of another tree
             r = subprocess.run(cmd, cwd=src, capture_output=True, text=True, env=env_offline({'RUSTFLAGS': '-A warnings'}))
             if r.returncode != 0:
                 raise BuildError('server build failed:\n' + r.stderr[-3000:])
